@@ -47,6 +47,11 @@ def run(tier):
         for layout, eol in (("canon", "\n"), ("shift", "\r\n")):
             p, root = gen_lines.scope_case(random.Random(seed * 1000 + i))
             add("scope", p, root, layout, eol, random.Random(i))
+    for ntail in (0, 1, 2, 3):
+        for query in ("info", "local", "error"):
+            for layout, eol in (("canon", "\n"), ("shift", "\r\n")):
+                p, root = gen_lines.taillevel_case(ntail, query, random.Random(seed * 77 + ntail))
+                add("taillevel", p, root, layout, eol, random.Random(ntail))
     for variant in ("open", "closed"):
         for layout, eol in (("canon", "\n"), ("shift", "\n")):
             p, root = gen_lines.xthread_case(variant)
@@ -63,7 +68,7 @@ def run(tier):
         add("randerr:" + layout, g.p, root, layout, eol, random.Random(i))
     verd, cov, allv, allo, stats = lsem.run_families(
         PROP, tier, progs,
-        "one failing construct (11 kinds: arithmetic/concat/comparison/call/index/method on nil, unary minus, error level 1 and 2, error with a table) in each of 15 statement positions, preceded by 0-5 statements, rendered under layouts {canonical, blank+comment lines of every form inserted, line breaks inside statements} x {LF, CRLF, CR}; debug.getinfo currentline at levels 1/2 and linedefined/lastlinedefined; random block/loop/function nestings with shadowing queried by debug.getlocal at levels 1/2, setlocal, getupvalue/setupvalue by name, also from metamethod handlers run by the first instruction after a block and on variables living in another thread's registers; random programs ending in runtime errors under random layouts",
+        "one failing construct (11 kinds: arithmetic/concat/comparison/call/index/method on nil, unary minus, error level 1 and 2, error with a table) in each of 15 statement positions, preceded by 0-5 statements, rendered under layouts {canonical, blank+comment lines of every form inserted, line breaks inside statements} x {LF, CRLF, CR}; debug.getinfo currentline at levels 1/2 and linedefined/lastlinedefined; levels counted through 0-3 activations lost to proper tail calls (getinfo, getlocal, error level); random block/loop/function nestings with shadowing queried by debug.getlocal at levels 1/2, setlocal, getupvalue/setupvalue by name, also from metamethod handlers run by the first instruction after a block and on variables living in another thread's registers; random programs ending in runtime errors under random layouts",
         [], t0, max_steps=30000, nontrivial_min_emits=2)
     rc = verd.finish()
     cov["known_findings_hit"] = sorted(verd.known_hit)
